@@ -333,29 +333,14 @@ func RunHistory(rng *common.Rng, cfg Config) (*Run, error) {
 			fail("C01", "illegal response stream: "+stripNums(e), e+" | "+strings.Join(obs.Raw, " / "))
 		}
 		if o.Cmd == "store" && o.Silent {
-			// what the client assumes after a .SILENT store: the flags it sent, the forward flags taken as the pair the
-			// server makes of them (as the model's CStore carries them)
-			sent := forwardClosure(o.Flags)
+			// C01 speaks of the mailbox the client reconstructs PURELY from untagged responses: a .SILENT store tells it
+			// nothing, and what it had learnt about the flags of the addressed messages is outdated by its own command.
+			// Those flags are unknown to the mirror until the next FETCH response (the server may apply the change to the
+			// instance the client sees at once, or - when that message was put back and its EXISTS is still held - to the
+			// new instance after the next permitting command; the model comparison checks which).
 			for _, p := range o.Ps {
-				if p >= 1 && p <= len(m.Cells) && m.Cells[p-1].HasF {
-					c := &m.Cells[p-1]
-					rec := false
-					for _, f := range c.Flags {
-						if f == 0 {
-							rec = true
-						}
-					}
-					switch o.FOp {
-					case "add":
-						c.Flags = union(c.Flags, sent)
-					case "rem":
-						c.Flags = setOf(without(c.Flags, sent...))
-					case "set":
-						c.Flags = setOf(sent)
-						if rec {
-							c.Flags = union(c.Flags, []int{0})
-						}
-					}
+				if p >= 1 && p <= len(m.Cells) {
+					m.Cells[p-1].HasF = false
 				}
 			}
 		}
